@@ -814,9 +814,10 @@ class Interp:
             return None
         return fr.spec.loop_for(st, fr)
 
-    def cut_loop(self, st, fr, spec, test, body, pre):
+    def cut_loop(self, st, fr, spec, test, body, pre, extra_havoc=()):
         """Invariant cut: assert inv; havoc; assume inv; then either leave or run one arbitrary iteration."""
         ctx = self.ctx
+        spec.extra_havoc = tuple(extra_havoc)
         cn = getattr(ctx, "cname", None)
         base = "%s/loop#%d" % (fr.qual, spec.ordinal) if (cn is None or cn == fr.qual) else "%s/%s/loop#%d" % (cn, fr.qual if not cn.startswith(fr.qual) else "", spec.ordinal)
         base = base.replace("//", "/")
@@ -983,6 +984,11 @@ class Interp:
             return
         if isinstance(obj, Ref):
             return B.ref_setattr(self.ctx, obj, name, v)
+        if isinstance(obj, SV) and obj.ty.startswith("u:"):
+            m = self.ctx.prog.usort_models.get(obj.ty[2:])
+            if m is None:
+                raise Undecided("no model for attributes of %s values" % obj.ty)
+            return m.setattr(self.ctx, obj, name, v)
         if isinstance(obj, FuncVal) and obj.bound is not None:
             raise py_exc(AttributeError, "'method' object has no attribute '%s'" % name)
         raise Undecided("setattr on %r" % (obj,))
@@ -1302,6 +1308,10 @@ class Interp:
             return self.call_value(call, args, kwargs, fr, site)
         if isinstance(f, Ref) and f.kind == "ext":
             return B.ext_call(ctx, f, args, kwargs)
+        if isinstance(f, SV) and f.ty.startswith("u:"):
+            m = ctx.prog.usort_models.get(f.ty[2:])
+            if m is not None and hasattr(m, "call"):
+                return m.call(ctx, f, args, kwargs)
         raise Undecided("call of %r" % (f,))
 
     def make_exc(self, cls, args, kwargs):
